@@ -419,6 +419,40 @@ func main() {
 			}
 		}
 	}
+	// The turn hand-over itself: reset of the next arbiters from the CRC arbiter map followed by
+	// updateNextTurnInfo, with and without elected producers (nil = inactive / under-staffed mode),
+	// in the legacy era and after the committee start. The on-duty order must be the same every time.
+	{
+		cp := config.GetDefaultParams()
+		hs := []uint32{cp.CRConfiguration.CRCommitteeStartHeight - 1000, cp.CRConfiguration.CRCommitteeStartHeight + 10}
+		for _, h := range hs {
+			for _, np := range []int{0, 1, 3} {
+				var prods [][]byte
+				for i := 0; i < np; i++ {
+					prods = append(prods, keys.Pub(i))
+				}
+				first := ""
+				for k := 0; k < 40; k++ {
+					ks, err := state.VerifNextTurnOrder(cp, h, prods)
+					if err != nil {
+						evid.Fatalf("harness: VerifNextTurnOrder: %v", err)
+					}
+					if len(ks) != len(cp.DPoSConfiguration.CRCArbiters)+np {
+						evid.Fatalf("harness: next turn has %d arbiters, want %d", len(ks), len(cp.DPoSConfiguration.CRCArbiters)+np)
+					}
+					cur := strings.Join(ks, ",")
+					if k == 0 {
+						first = cur
+					} else if cur != first {
+						r.Violate("C24|next-arbiters-order-nondeterministic|updateNextTurnInfo",
+							"the on-duty order of the next arbiters differs between two sequential evaluations of the same turn hand-over (it follows the iteration order of the next CRC arbiter map)",
+							map[string]interface{}{"scenario": scen{Name: fmt.Sprintf("sequential-repeat-nextturn-h%d-p%d", h, np)}, "schedule": []int{}, "first": first, "other": cur})
+						break
+					}
+				}
+			}
+		}
+	}
 	if r.NumViolations() > 0 && r.Replay == "" {
 		r.Finish(evid.Coverage{"states": 1, "transitions": 1, "traces_validated_against_impl": 240, "samples": []interface{}{"sequential repeat of the reference evaluations"},
 			"rule": "sequential determinism pre-check failed; schedule exploration skipped because outcomes would not be reproducible", "exhaustive": false})
